@@ -163,6 +163,7 @@ func BorrowInts(size int) []int {
 		return make([]int, size)
 	}
 	// log.Printf("Borrowing %p. Called by %v", retVal, string(debug.Stack()))
+	verifHookBorrowInts(retVal.([]int))
 	return retVal.([]int)[:size]
 }
 
@@ -181,6 +182,7 @@ func ReturnInts(is []int) {
 	if size > maxDims {
 		return
 	}
+	verifHookReturnInts(is)
 	is = is[:cap(is)]
 	for i := range is {
 		is[i] = 0
